@@ -4,10 +4,19 @@
 package muc
 
 import (
+	"bytes"
+	"context"
+	"encoding/xml"
 	"fmt"
+	"io"
+	"strings"
 	"testing"
+	"time"
 
+	"mellium.im/xmlstream"
+	"mellium.im/xmpp/internal/xmpptest"
 	"mellium.im/xmpp/jid"
+	"mellium.im/xmpp/stanza"
 )
 
 func TestGvcAdapterMUCJoinedKey(t *testing.T) {
@@ -22,4 +31,42 @@ func TestGvcAdapterMUCJoinedKey(t *testing.T) {
 		return
 	}
 	fmt.Println("NOT-REPRODUCED muc Joined: registered channel is reported joined")
+}
+
+// A join that did not succeed (here: its context has ended and the room never
+// answered) must not leave the room registered: presences that arrive later
+// from that occupant address belong to a room that was never joined.
+func TestGvcAdapterMUCFailedJoinStaysRegistered(t *testing.T) {
+	room := jid.MustParse("room@conference.example.net/nick")
+	var buf bytes.Buffer
+	s := xmpptest.NewClientSession(0, struct {
+		io.Reader
+		io.Writer
+	}{strings.NewReader(""), &buf})
+	calls := 0
+	c := &Client{HandleUserPresence: func(stanza.Presence, Item) { calls++ }}
+	ctx, cancel := context.WithTimeout(context.Background(), 100*time.Millisecond)
+	defer cancel()
+	_, err := c.Join(ctx, room, s)
+	if err == nil {
+		fmt.Println("NOT-REPRODUCED muc: the join unexpectedly succeeded")
+		return
+	}
+	c.managedM.Lock()
+	_, still := c.managed[room.String()]
+	c.managedM.Unlock()
+	d := xml.NewDecoder(strings.NewReader(`<presence xmlns="jabber:client" from="room@conference.example.net/nick"><x xmlns="http://jabber.org/protocol/muc#user"><item affiliation="member" role="participant"/></x></presence>`))
+	tok, _ := d.Token()
+	start := tok.(xml.StartElement)
+	p, _ := stanza.NewPresence(start)
+	_ = c.HandlePresence(p, struct {
+		xml.TokenReader
+		xmlstream.Encoder
+	}{TokenReader: xmlstream.MultiReader(xmlstream.Token(start), xmlstream.Inner(d), xmlstream.Token(start.End())), Encoder: xml.NewEncoder(&buf)})
+	if still || calls > 0 {
+		fmt.Printf("REPRODUCED muc: Join returned %v but the room is still registered (%v) and a later presence from the occupant address was handled as if the room were joined (HandleUserPresence calls: %d)\n", err, still, calls)
+		t.Fail()
+		return
+	}
+	fmt.Println("NOT-REPRODUCED muc: a failed join leaves nothing registered")
 }
